@@ -120,7 +120,17 @@ def get_tables(model):
     """all four output tables through the public getters"""
     info = model.get_additional_information()
     res = model.get_simulation_results()
+    meta = []
+    for getter in (model.get_water_flux, model.get_water_storage, model.get_crop_growth):
+        x = getter()
+        if isinstance(x, pd.DataFrame):
+            meta.append(("DataFrame", tuple(str(c) for c in x.columns), tuple(str(d) for d in x.dtypes), str(x.index.dtype), len(x)))
+        else:
+            meta.append((type(x).__name__, str(getattr(x, "dtype", "")), tuple(getattr(x, "shape", ()))))
+    if res is not False and res is not None:
+        meta.append(("final", tuple(str(c) for c in res.columns), tuple(str(d) for d in res.dtypes), tuple(str(i) for i in res.index)))
     return {
+        "meta": tuple(meta),
         "flux": _as_array(model.get_water_flux()).copy(),
         "storage": _as_array(model.get_water_storage()).copy(),
         "growth": _as_array(model.get_crop_growth()).copy(),
@@ -156,9 +166,16 @@ def _row_eq(x, y):
     return True
 
 
-def diff_tables(a, b, skip_cols=None):
-    """first difference between two table dicts, or None.  skip_cols: {"flux": [col idx]}"""
+def diff_tables(a, b, skip_cols=None, strict_types=False):
+    """first difference between two table dicts, or None.  skip_cols: {"flux": [col idx]}
+    strict_types: also compare container type, column labels, dtypes and index of the tables (same configuration, same
+    code path: the tables must be the same objects structurally, not only numerically)"""
     skip_cols = skip_cols or {}
+    if strict_types and a.get("meta") is not None and b.get("meta") is not None and a["meta"] != b["meta"]:
+        for x, y in zip(a["meta"], b["meta"]):
+            if x != y:
+                return f"table structure differs: {x} vs {y}"
+        return f"table structure differs: {len(a['meta'])} vs {len(b['meta'])} tables"
     if a["finished"] != b["finished"]:
         return f"completion status differs: {a['finished']} vs {b['finished']}"
     for name, cols in (("flux", FLUX_COLS), ("storage", None), ("growth", GROWTH_COLS)):
